@@ -122,6 +122,11 @@ var catastrophic = []catFam{
 	{`x|(a+)+$`, 0, InputSpec{Pre: "1 x 2 x ", Unit: "a", Rep: 44, Suf: "!"}, "late-blowup", "1 x 2 x 3"},
 	{`x|q(a+)+`, oRTL, InputSpec{Pre: "z", Unit: "a", Rep: 44, Suf: " x mid x tail"}, "late-blowup", "1 x 2 x 3"},
 	{`\d|(?:a*)*b`, 0, InputSpec{Pre: "1 2 3 ", Unit: "a", Rep: 400}, "late-blowup", "4 ab 5"},
+	// the blow-up is in the LAST continuation scan, which starts where the input stops (a lookbehind, or a
+	// lookahead of a right-to-left pattern, walks back over everything)
+	{`x+|(?<=y(x+)+)`, 0, InputSpec{Pre: "z", Unit: "x", Rep: 40}, "tail-blowup", "yxx"},
+	{`x+|(?=(x+)+y)`, oRTL, InputSpec{Unit: "x", Rep: 40, Suf: "z"}, "tail-blowup", "xxy"},
+	{`\w+|(?<=^#(?:\w|\w\w)*)`, 0, InputSpec{Pre: "-", Unit: "ab", Rep: 24}, "tail-blowup", "#ab"},
 }
 
 // Stack-hungry (pattern, input) families under a backtracking stack limit, with cheap matches before the
